@@ -172,6 +172,56 @@ def interleaving_programs():
     return out
 
 
+# Every piece of control state a fiber owns x everything another fiber can do meanwhile.  Fiber A is suspended at a point P (inside a
+# try block, a catch block, a finally block reached normally / by a pending `return` / by a propagating exception, a loop body, a deep
+# call, a method, a closure over locals that change afterwards); before it is resumed the main fiber performs an action Q (a function
+# returning through finally, a throw caught, a built-in failure caught, loops, deep calls, another fiber that is itself left suspended in
+# a finally with a pending return and finished later).  Oracle 1 (metamorphic, model-free): the lines A prints are the lines it prints
+# when Q is "nothing".  Oracle 2: the reference interpreter.  (This grid found F53: the exception-in-flight flag did not travel with its
+# fiber - repaired; within ONE fiber the flag is still a single boolean: ledger F35.)
+SUSPEND_POINTS = [
+    ("in-try", ['try { print("A: in try"); got = Fiber.yield("y"); print("A: after yield " + String.from(got)); throw "A-exc"; } catch e { print("A: caught " + e); }']),
+    ("in-catch", ['try { throw "A-exc"; } catch e { got = Fiber.yield("y"); print("A: catch resumed " + e + " " + String.from(got)); }']),
+    ("in-finally-normal", ['try { print("A: try"); } finally { got = Fiber.yield("y"); print("A: finally resumed " + String.from(got)); }', 'print("A: after statement");']),
+    ("in-finally-return-pending", ['fn fa() { try { return "A-ret"; } finally { got = Fiber.yield("y"); print("A: finally resumed " + String.from(got)); } }', 'print("A: fa returned " + String.from(fa()));']),
+    ("in-finally-return-pending-nested", ['fn fb() { try { return "inner-ret"; } finally { got = Fiber.yield("y"); } }',
+                                          'fn fa() { try { return "outer " + fb(); } finally { print("A: outer finally " + String.from(got)); } }', 'print("A: fa returned " + String.from(fa()));']),
+    ("in-finally-exception-pending", ['try { try { throw "A-exc"; } finally { got = Fiber.yield("y"); print("A: finally resumed " + String.from(got)); } } catch e { print("A: outer caught " + e); }']),
+    ("in-loop", ['for x in [1, 2, 3] { if x == 2 { got = Fiber.yield("y"); } print("A: x " + String.from(x)); }', 'var k = 0; while k < 2 { k = k + 1; if k == 1 { Fiber.yield("y2"); } print("A: k " + String.from(k)); }']),
+    ("in-deep-call", ['fn d(n) { if n == 0 { got = Fiber.yield("y"); return "deep"; } return d(n - 1) + "!"; }', 'print("A: " + d(5));']),
+    ("in-method", ['#[constructor(new)] class M { fn run(self) { self.v = 1; got = Fiber.yield("y"); self.v = self.v + 1; return self.v; } }', 'var m = M.new(); print("A: method " + String.from(m.run()));']),
+    ("in-closure", ['var loc = "before"; var cl = || loc; got = Fiber.yield("y"); loc = "after"; print("A: closure " + cl());']),
+]
+MEANWHILE = [
+    ("nothing", []),
+    ("return-through-finally", ['fn qa(k) { try { return "value of " + k; } finally { var pad = 1; } }', 'print("B: " + qa("k"));']),
+    ("throw-caught", ['try { throw "B-exc"; } catch e { print("B: caught " + e); }']),
+    ("builtin-failure-caught", ['try { var z = nil + 1; } catch e { print("B: caught " + String.from(type(e))); }', 'try { [1][9]; } catch e { print("B: caught " + String.from(type(e))); }']),
+    ("try-finally-plain", ['try { print("B: try"); } finally { print("B: finally"); }']),
+    ("loops-and-calls", ['fn qd(n) { if n == 0 { return 0; } return qd(n - 1) + 1; }', 'var acc = 0; for i in 0..4 { acc = acc + qd(i); } print("B: " + String.from(acc));']),
+    ("another-fiber-suspended-the-same-way", ['fn qb() { try { return "C-ret"; } finally { Fiber.yield("c-y"); print("C: finally resumed"); } }',
+                                              'var fc = Fiber.new(|| { print("C: got " + qb()); return "C done"; });', 'print("B: " + String.from(fc.call()));']),
+    ("nested-try-with-return", ['fn qn() { try { try { throw "inner"; } catch e { return "from catch " + e; } } finally { var pad = 2; } }', 'print("B: " + qn());']),
+]
+
+
+def suspension_grid():
+    """-> [(name, source, name of the Q = nothing twin)]"""
+    out = []
+    for pn, pbody in SUSPEND_POINTS:
+        for qn, qbody in MEANWHILE:
+            lines = ["var fa_ = Fiber.new(|| {", "    var got = nil;"] + ["    " + l for l in pbody] + ['    print("A: end");', '    return "A done";', "});",
+                     'print("main: " + String.from(fa_.call()));']
+            lines += qbody
+            lines += ['var r_ = fa_.call("resume-token");', 'print("main: " + String.from(r_));',
+                      'while !fa_.has_finished() { print("main: " + String.from(fa_.call("again"))); }']
+            if qn == "another-fiber-suspended-the-same-way":
+                lines += ['print("B: " + String.from(fc.call()));', "print(fc.has_finished());"]
+            lines += ['print("main: end");']
+            out.append(("suspend:%s/%s" % (pn, qn), "\n".join(lines) + "\n", "suspend:%s/nothing" % pn))
+    return out
+
+
 def check_scenario(res, expected, outcome):
     from props import c08
     return c08.check_scenario(res, expected, outcome)
@@ -225,6 +275,22 @@ def correspondence(ctx, model_ok=True):
             if err or uaf:
                 failures.append({"what": "fiber scenario '%s': %s" % (name, err or uaf), "program": src, "expected": e, "expected_outcome": o,
                                  "observed": progs.canon_step(r), "signature": "scenario " + name.split(":")[0], "failing_input": True})
+    # (c2) suspension points x meanwhile actions
+    grid = suspension_grid()
+    gres, glines = progs.run_programs(ctx.runner, [(n, src, {}) for n, src, _ in grid], {"gc": "default"}, tag="u")
+    a_lines = {}
+    for (name, src, twin), r in zip(grid, gres):
+        c = progs.canon_step(r)
+        a_lines[name] = (c[0], [l for l in (c[2] if len(c) > 2 else ()) if l.startswith(("A:", "main:"))])
+    for (name, src, twin), r in zip(grid, gres):
+        c = progs.canon_step(r)
+        if c[0] != "ok" or a_lines[name] != a_lines[twin]:
+            failures.append({"what": "a fiber suspended at %s does not continue as it does undisturbed when the main fiber meanwhile performs '%s': its lines %s, undisturbed %s (%s)"
+                                     % (name.split(":")[1].split("/")[0], name.split("/")[1], a_lines[name][1], a_lines[twin][1], c[0]),
+                             "program": src, "expected": a_lines[twin][1], "signature": "suspended fiber disturbed: " + name.split(":")[1].split("/")[0], "failing_input": True})
+    if model_ok:
+        gsd = specdiff.diff(ctx, [(n, src, {}) for n, src, _ in grid], "C09", broken)
+        failures += gsd["failures"]
     # (d) whole body inside a fiber called once
     from props import c06
     meta = []
@@ -244,7 +310,7 @@ def correspondence(ctx, model_ok=True):
         for t in tg:
             tags[t] = tags.get(t, 0) + 1
     cov = {
-        "evaluations": len(allp) + 2 * len(scen) + len(meta) + sd["compared"],
+        "evaluations": len(allp) + 2 * len(scen) + len(meta) + sd["compared"] + len(grid), "suspension_grid_programs": len(grid),
         "distinct_nontrivial": len(with_switch) + len(scen),
         "rule": "generated fiber programs + repository fiber scripts whose load/unload events are replayed through the model (non-trivial = at "
                 "least one switch) + %d scenarios with constructed expected output incl. %d enumerated interleavings of two fibers, in 2 GC modes" % (len(scen), len(inter)),
